@@ -82,6 +82,7 @@ type Engine struct {
 	fnConsts  map[string]*smt.Term
 	Files     []*spec.File
 	usedContracts map[*Contract]bool
+	aliases   map[*types.Package]map[string]*types.Package // import aliases used in a package's source files
 	filePkg   map[*spec.File]*types.Package
 }
 
@@ -137,7 +138,22 @@ func Load(repo string, patterns []string, extraSpecs []string) (*Engine, error) 
 		typeTags: map[string]int{}, Notes: map[string]bool{}, RepoDir: repo, fnConsts: map[string]*smt.Term{},
 		filePkg: map[*spec.File]*types.Package{}, usedContracts: map[*Contract]bool{},
 	}
+	e.aliases = map[*types.Package]map[string]*types.Package{}
 	packages.Visit(pkgs, nil, func(p *packages.Package) {
+		for _, f := range p.Syntax {
+			for _, im := range f.Imports {
+				if im.Name == nil || im.Name.Name == "_" || im.Name.Name == "." {
+					continue
+				}
+				path := strings.Trim(im.Path.Value, "\"")
+				if ip, ok := p.Imports[path]; ok && ip.Types != nil {
+					if e.aliases[p.Types] == nil {
+						e.aliases[p.Types] = map[string]*types.Package{}
+					}
+					e.aliases[p.Types][im.Name.Name] = ip.Types
+				}
+			}
+		}
 		e.ByName[p.Name] = append(e.ByName[p.Name], p)
 		if sp := prog.Package(p.Types); sp != nil {
 			e.SSAPkgs[p.PkgPath] = sp
@@ -356,6 +372,9 @@ func mentionsCall(x spec.Expr, name string) bool {
 
 func (e *Engine) findPkgByName(from *types.Package, name string) *types.Package {
 	if from != nil {
+		if a, ok := e.aliases[from][name]; ok {
+			return a
+		}
 		if from.Name() == name {
 			return from
 		}
@@ -408,6 +427,24 @@ func (e *Engine) resolveFunc(from *types.Package, name string) (*types.Func, err
 	name = strings.TrimSpace(name)
 	pkg := from
 	rest := name
+	// full import path qualifier: github.com/x/y.T.m
+	if k := strings.LastIndex(name, "/"); k >= 0 && !strings.HasPrefix(name, "(") {
+		if i := strings.Index(name[k:], "."); i >= 0 {
+			path := name[:k+i]
+			var found *types.Package
+			packages.Visit(e.Pkgs, nil, func(p *packages.Package) {
+				if p.PkgPath == path {
+					found = p.Types
+				}
+			})
+			if found == nil {
+				return nil, fmt.Errorf("cannot resolve %q: package %s not loaded", name, path)
+			}
+			pkg = found
+			rest = name[k+i+1:]
+			from = found
+		}
+	}
 	// leading "pkg." qualifier (pkg is identifier chars up to first '.' and not starting with '(')
 	if !strings.HasPrefix(rest, "(") {
 		if i := strings.Index(rest, "."); i >= 0 {
